@@ -239,6 +239,7 @@ impl Engine for C12 {
                 mem_in: MemState::new(),
                 lookups: plist.clone(),
                 app_rows: None,
+                app_files: 1,
                 net_faults: vec![],
                 fs_faults: FsFaultSpec::default(),
                 knobs: Knobs::default(),
@@ -368,6 +369,7 @@ impl Engine for C12 {
                 mem_in: MemState::new(),
                 lookups: vec![],
                 app_rows: Some(rows.clone()),
+                app_files: 1,
                 net_faults: vec![],
                 fs_faults: FsFaultSpec::default(),
                 knobs: Knobs::default(),
